@@ -344,6 +344,16 @@ def marked(name):
     return SOURCE_MARK in name
 
 
+def split_lines(source):
+    # type: (str) -> list[str]
+    # lines as the parser numbers them: str.splitlines() also splits at form
+    # feeds and other separators that are plain white space to the tokenizer
+    lines = source.replace('\r\n', '\n').replace('\r', '\n').split('\n')
+    if len(lines) > 1 and not lines[-1]:
+        lines.pop()
+    return lines
+
+
 class Source(object):
     def __init__(self, source, filename=None, position=None):
         # type: (str, str | None, tuple[int, int] | None) -> None
@@ -351,7 +361,7 @@ class Source(object):
         self.filename = filename or '<string>'
         if position:
             ln, col = position
-            lines = source.splitlines() or ['']
+            lines = split_lines(source)
             if ln > len(lines):
                 lines.append('')
             line = lines[ln-1]
@@ -373,7 +383,7 @@ class Source(object):
     @cached_property
     def lines(self):
         # type: () -> list[str]
-        return self.source.splitlines() or ['']
+        return split_lines(self.source)
 
 
 def dump_flows(scope, fd=None):
